@@ -234,7 +234,8 @@ def body(ch, ctx):
         return
     exp = ref.expected()
     merged_ids = ref.merged_ids()
-    feats, rels = observe(db)
+    # file databases are read through a second connection (what another process would see), in-memory ones through their own
+    feats, rels = observe(os.path.join(wd, "o.db") if imp == "gff_update" else db)
     dbutil.close_db(db)
     if not gtf:
         for sid in STATIC_IDS:
